@@ -494,10 +494,23 @@ class Interp:
         m = re.fullmatch(r'(.*) as (\w+) \((\w+)\)', rv)
         if m:
             v = s.operand(f, frame, m.group(1))
+            src_ty = s.operand_ty(f, m.group(1))
             if m.group(3) == 'IntToFloat':
-                if is_sym(v): raise Unsupported('symbolic IntToFloat')
+                if is_sym(v):
+                    sg = INT_TYPES.get(src_ty, (64, 1))[1]
+                    return z3.fpSignedToFP(z3.RNE(), v, z3.Float64()) if sg else z3.fpUnsignedToFP(z3.RNE(), v, z3.Float64())
                 return float(v)
-            return v      # char->u32 etc; widths ignored in prototype
+            if m.group(3) == 'IntToInt' and m.group(2) in INT_TYPES and is_sym(v) and not z3.is_bool(v):
+                dw, _ = INT_TYPES[m.group(2)]
+                sg = INT_TYPES.get(src_ty, (v.size(), 0))[1]
+                if dw <= v.size(): return z3.Extract(dw - 1, 0, v) if dw < v.size() else v
+                return z3.SignExt(dw - v.size(), v) if sg else z3.ZeroExt(dw - v.size(), v)
+            if m.group(3) == 'IntToInt' and m.group(2) in INT_TYPES and isinstance(v, int) and not isinstance(v, bool):
+                dw, dsg = INT_TYPES[m.group(2)]
+                v &= (1 << dw) - 1
+                if dsg and v >> (dw - 1): v -= 1 << dw
+                return v
+            return v
         if rv.startswith(('copy ', 'move ', 'const ', 'no_retag ')):
             return s.operand(f, frame, rv)
         m = re.fullmatch(r'&(mut )?(.*)', rv)
@@ -540,6 +553,7 @@ class Interp:
             if en:
                 fields = [s.operand(f, frame, o) for o in split_top(m.group(3))] if m.group(3) else []
                 return Agg(en, ENUMS[en].index(m.group(2)), fields)
+        if rv in ('Less', 'Equal', 'Greater'): return Agg('Ordering', {'Less': -1, 'Equal': 0, 'Greater': 1}[rv], [])
         if re.fullmatch(r'[\w:]+', rv): return ('opaque', rv)
         m = re.fullmatch(r'([\w:<>\', &()]+?) \{ (.*) \}', rv)
         if m:
@@ -631,6 +645,8 @@ class Interp:
         if c == 'Vec::<Token>::new': return []
         if c == 'Vec::<Token>::push': a[0].get().append(a[1]); return UNIT
         if c in ('<char as Into<String>>::into', '<&str as Into<String>>::into'): return ('String', a[0])
+        r_ = s.number_models(c, a)
+        if r_ is not None: return r_
         m = re.fullmatch(r'RefCell::<.*>::(borrow|borrow_mut)', c)
         if m:
             cell = a[0]                     # Ref to Agg('RefCell', [value, flag])
@@ -725,6 +741,42 @@ class Interp:
             v = a[0].get() if isinstance(a[0], Ref) else a[0]
             return s.clone(v)
         raise Unsupported('call ' + callee)
+
+    def ordering(s, lt, eq, gt=None):
+        if s.branch(lt): return mk_some(Agg('Ordering', -1, []))
+        if s.branch(eq): return mk_some(Agg('Ordering', 0, []))
+        if gt is None or s.branch(gt): return mk_some(Agg('Ordering', 1, []))
+        return NONE()
+
+    def number_models(s, c, a):
+        dr = lambda x: x.get() if isinstance(x, Ref) else x
+        bv = lambda x, w: x if is_sym(x) else z3.BitVecVal(x, w)
+        if c == '<i64 as PartialOrd>::partial_cmp':
+            x, y = bv(dr(a[0]), 64), bv(dr(a[1]), 64)
+            return s.ordering(x < y, x == y)
+        if c == '<f64 as PartialOrd>::partial_cmp':
+            x, y = dr(a[0]), dr(a[1])
+            x = x if is_sym(x) else z3.FPVal(x, z3.Float64()); y = y if is_sym(y) else z3.FPVal(y, z3.Float64())
+            return s.ordering(z3.fpLT(x, y), z3.fpEQ(x, y), z3.fpGT(x, y))
+        if c == '<BigInt as From<i64>>::from': return z3.BV2Int(bv(a[0], 64), is_signed=True)
+        if c == '<BigInt as PartialOrd>::partial_cmp':
+            x, y = dr(a[0]), dr(a[1]); return s.ordering(x < y, x == y)
+        if c == '<BigInt as ToPrimitive>::to_f64':
+            return mk_some(z3.fpRealToFP(z3.RNE(), z3.ToReal(dr(a[0])), z3.Float64()))
+        if c == '<BigInt as ToPrimitive>::to_i32':
+            x = dr(a[0])
+            if s.branch(z3.And(x >= -(1 << 31), x < (1 << 31))): return mk_some(z3.Int2BV(x, 32))
+            return NONE()
+        if c == 'Ratio::<i32>::from_integer': return Agg('Ratio', None, [a[0], 1])
+        if c == '<Ratio<i32> as PartialOrd>::partial_cmp':
+            x, y = dr(a[0]), dr(a[1])
+            e = lambda v: z3.SignExt(32, bv(v, 32))
+            l, r = e(x.f[0]) * e(y.f[1]), e(y.f[0]) * e(x.f[1])
+            return s.ordering(l < r, l == r)
+        if c == '<Ratio<i32> as ToPrimitive>::to_f64':
+            x = dr(a[0]); f = lambda v: z3.fpSignedToFP(z3.RNE(), bv(v, 32), z3.Float64())
+            return mk_some(z3.fpDiv(z3.RNE(), f(x.f[0]), f(x.f[1])))
+        return None
 
     def trunc(s, v, w):
         if is_sym(v): return s.resize(v, w)
